@@ -43,6 +43,41 @@ def enum_policies(maxlen: int):
                 yield {"algorithm": algo, "rules": [template(c, i) for i, c in enumerate(seq)]}, "/".join(seq) + "|" + algo
 
 
+def enum_ids(maxlen: int):
+    """the same rule sequences with ids that are falsy, absent, repeated or not strings: which rule is reported must not depend on
+    an id being 'truthy', and an id is never used to tell rules apart."""
+    variants = {"empty": lambda i: "", "absent": lambda i: None, "dup": lambda i: "r", "zero": lambda i: 0,
+                "first-empty": lambda i: "" if i == 0 else f"r{i}", "last-empty": lambda i: f"r{i}"}
+    for n in range(1, maxlen + 1):
+        for seq in itertools.product(CLASSES, repeat=n):
+            for name, f in variants.items():
+                rules = []
+                for i, c in enumerate(seq):
+                    t = template(c, i)
+                    rid = "" if (name == "last-empty" and i == n - 1) else f(i)
+                    if rid is None:
+                        del t["id"]
+                    else:
+                        t["id"] = rid
+                    rules.append(t)
+                for algo in gen.ALGOS:
+                    yield {"algorithm": algo, "rules": rules}, f"ids-{name}|" + "/".join(seq) + "|" + algo
+    # sets whose children have falsy / absent / repeated ids
+    P = {"algorithm": "deny-overrides", "rules": [template("permit", 0)]}
+    D = {"algorithm": "deny-overrides", "rules": [template("deny", 0)]}
+    N = {"algorithm": "deny-overrides", "rules": [template("action", 0)]}
+    for kids in itertools.product((P, D, N), repeat=2):
+        for ida, idb in (("", ""), ("", "p"), ("p", ""), (None, None), ("p", "p"), (0, 1)):
+            ch = []
+            for k, i in zip(kids, (ida, idb)):
+                c = dict(k)
+                if i is not None:
+                    c["id"] = i
+                ch.append(c)
+            for algo in gen.ALGOS:
+                yield {"algorithm": algo, "policies": ch}, f"set-ids|{algo}"
+
+
 def enum_sets(quick: bool):
     """all sets of ≤3 children drawn from a pool of small policies (+ one level of nesting)."""
     pool = []
@@ -113,6 +148,8 @@ def cases(run: lib.Run, scale: int = 1):
     for pol, label in enum_sets(quick):
         yield pol, ENV, label
     for pol, label in enum_deep():
+        yield pol, ENV, label
+    for pol, label in enum_ids(3 if quick else 4):
         yield pol, ENV, label
     r = random.Random(run.seed * 7919 + 2)
     n = (1500 if quick else 15000) * scale
